@@ -754,6 +754,313 @@ example : nestedCheckpointScanOut 1 (fun (c : Nat) (x : Nat) => (c + x, c)) 0 [7
 example : nestedCheckpointScanOut 0 (fun (c : Nat) (x : Nat) => (c + x, ())) 0 ([] : List Nat) none []
     = .error .typeError := by decide
 
+/-! ### error kinds of the general forms, agreement of factorisations (review F2, N5, N6) -/
+
+/-- an inconsistent `length` argument is rejected with `ValueError`, any number of output leaves -/
+theorem nestedCheckpointScanOut_length_rejected (nOut : Nat) (f : C → X → C × Y) (init : C)
+    (xs : List X) (n : Nat) (ls : List Nat) (h : n ≠ prod ls) :
+    nestedCheckpointScanOut nOut f init xs (some n) ls = .error .valueError := by
+  simp [nestedCheckpointScanOut, lengthMismatch, h]
+
+/-- an input whose leading length is not the product of the nesting is rejected: `ValueError`
+ when `length` is inconsistent as well (that test comes first), `TypeError` (`reshape`) otherwise -/
+theorem nestedCheckpointScanOut_mismatch_rejected (nOut : Nat) (f : C → X → C × Y) (init : C)
+    (xs : List X) (length : Option Nat) (ls : List Nat) (h : xs.length ≠ prod ls) :
+    nestedCheckpointScanOut nOut f init xs length ls
+      = if lengthMismatch length ls then .error .valueError else .error .typeError := by
+  simp [nestedCheckpointScanOut, h]
+
+/-- with an output leaf, a zero in a non-innermost position is rejected with `ValueError` -/
+theorem nestedCheckpointScanOut_zero_outer_rejected (nOut : Nat) (h0 : nOut ≠ 0) (f : C → X → C × Y)
+    (init : C) (xs : List X) (length : Option Nat) (pre post : List Nat) (hpost : post ≠ [])
+    (hm : lengthMismatch length (pre ++ 0 :: post) = false)
+    (hx : xs.length = prod (pre ++ 0 :: post)) :
+    nestedCheckpointScanOut nOut f init xs length (pre ++ 0 :: post) = .error .valueError := by
+  simp [nestedCheckpointScanOut, hm, hx, innerNestedScanOut_zero_outer nOut h0 f pre post hpost]
+
+theorem nestedCheckpointScanTree_length_rejected (f : C → List X → C × Y) (init : C)
+    (leaves : List (List X)) (n : Nat) (ls : List Nat) (h : n ≠ prod ls) :
+    nestedCheckpointScanTree f init leaves (some n) ls = .error .valueError := by
+  simp [nestedCheckpointScanTree, lengthMismatch, h]
+
+theorem nestedCheckpointScanTreeOut_length_rejected (nOut : Nat) (f : C → List X → C × Y) (init : C)
+    (leaves : List (List X)) (n : Nat) (ls : List Nat) (h : n ≠ prod ls) :
+    nestedCheckpointScanTreeOut nOut f init leaves (some n) ls = .error .valueError := by
+  simp [nestedCheckpointScanTreeOut, lengthMismatch, h]
+
+/-- a single leaf of the wrong leading length makes `reshape` fail, any number of output leaves -/
+theorem nestedCheckpointScanTreeOut_leaf_rejected (nOut : Nat) (f : C → List X → C × Y) (init : C)
+    (leaves : List (List X)) (length : Option Nat) (ls : List Nat)
+    (h : ∃ a ∈ leaves, a.length ≠ prod ls) :
+    nestedCheckpointScanTreeOut nOut f init leaves length ls
+      = if lengthMismatch length ls then .error .valueError else .error .typeError := by
+  have hany : (leaves.any fun a => a.length != prod ls) = true := by
+    obtain ⟨a, ha, hne⟩ := h
+    rw [List.any_eq_true]; exact ⟨a, ha, by simpa using hne⟩
+  simp [nestedCheckpointScanTreeOut, hany]
+
+/-- pytree form, at least one output leaf: a zero in a non-innermost position is rejected with
+ `ValueError` -/
+theorem nestedCheckpointScanTree_zero_outer_rejected (f : C → List X → C × Y) (init : C)
+    (leaves : List (List X)) (length : Option Nat) (pre post : List Nat) (hpost : post ≠ [])
+    (hm : lengthMismatch length (pre ++ 0 :: post) = false)
+    (hx : ∀ a ∈ leaves, a.length = prod (pre ++ 0 :: post)) :
+    nestedCheckpointScanTree f init leaves length (pre ++ 0 :: post) = .error .valueError := by
+  have hany : (leaves.any fun a => a.length != prod (pre ++ 0 :: post)) = false := by
+    rw [List.any_eq_false]; intro a ha; simp [hx a ha]
+  simp [nestedCheckpointScanTree, hm, hany, innerNestedScanTree_zero_outer f pre post hpost]
+
+theorem nestedCheckpointScanTreeOut_zero_outer_rejected (nOut : Nat) (h0 : nOut ≠ 0)
+    (f : C → List X → C × Y) (init : C) (leaves : List (List X)) (length : Option Nat)
+    (pre post : List Nat) (hpost : post ≠ [])
+    (hm : lengthMismatch length (pre ++ 0 :: post) = false)
+    (hx : ∀ a ∈ leaves, a.length = prod (pre ++ 0 :: post)) :
+    nestedCheckpointScanTreeOut nOut f init leaves length (pre ++ 0 :: post) = .error .valueError := by
+  have hany : (leaves.any fun a => a.length != prod (pre ++ 0 :: post)) = false := by
+    rw [List.any_eq_false]; intro a ha; simp [hx a ha]
+  simp [nestedCheckpointScanTreeOut, hm, hany,
+    innerNestedScanTreeOut_zero_outer nOut h0 f pre post hpost]
+
+/-- any two admissible factorisations of the same length give the same result, for a body with any
+ number of output leaves (without output leaf: any two non-empty nestings of the right product) -/
+theorem nestedCheckpointScanOut_factorisations_agree (nOut : Nat) (f : C → X → C × Y) (init : C)
+    (xs : List X) (length : Option Nat) (ls ls' : List Nat)
+    (hne : ls ≠ []) (hpos : nOut ≠ 0 → ∀ l ∈ ls.dropLast, 0 < l)
+    (hne' : ls' ≠ []) (hpos' : nOut ≠ 0 → ∀ l ∈ ls'.dropLast, 0 < l)
+    (hx : xs.length = prod ls) (hx' : xs.length = prod ls')
+    (hlen : ∀ n, length = some n → n = xs.length) :
+    nestedCheckpointScanOut nOut f init xs length ls
+      = nestedCheckpointScanOut nOut f init xs length ls' := by
+  rw [nestedCheckpointScanOut_eq_scan nOut f init xs length ls hne hpos hx
+      (fun n hn => (hlen n hn).trans hx),
+    nestedCheckpointScanOut_eq_scan nOut f init xs length ls' hne' hpos' hx'
+      (fun n hn => (hlen n hn).trans hx')]
+
+/-- the same for pytree inputs (in particular `xs = None` with `length` given) -/
+theorem nestedCheckpointScanTreeOut_factorisations_agree (nOut : Nat) (f : C → List X → C × Y)
+    (init : C) (leaves : List (List X)) (length : Option Nat) (ls ls' : List Nat)
+    (hne : ls ≠ []) (hpos : nOut ≠ 0 → ∀ l ∈ ls.dropLast, 0 < l)
+    (hne' : ls' ≠ []) (hpos' : nOut ≠ 0 → ∀ l ∈ ls'.dropLast, 0 < l)
+    (hp : prod ls = prod ls') (hx : ∀ a ∈ leaves, a.length = prod ls)
+    (hlen : ∀ n, length = some n → n = prod ls) :
+    nestedCheckpointScanTreeOut nOut f init leaves length ls
+      = nestedCheckpointScanTreeOut nOut f init leaves length ls' := by
+  rw [nestedCheckpointScanTreeOut_eq_scan nOut f init leaves length ls hne hpos hx hlen,
+    nestedCheckpointScanTreeOut_eq_scan nOut f init leaves length ls' hne' hpos'
+      (fun a ha => (hx a ha).trans hp) (fun n hn => (hlen n hn).trans hp), hp]
+
+/-- the same for the instance "at least one output leaf", pytree inputs -/
+theorem nestedCheckpointScanTree_factorisations_agree (f : C → List X → C × Y)
+    (init : C) (leaves : List (List X)) (length : Option Nat) (ls ls' : List Nat)
+    (hne : ls ≠ []) (hpos : ∀ l ∈ ls.dropLast, 0 < l)
+    (hne' : ls' ≠ []) (hpos' : ∀ l ∈ ls'.dropLast, 0 < l)
+    (hp : prod ls = prod ls') (hx : ∀ a ∈ leaves, a.length = prod ls)
+    (hlen : ∀ n, length = some n → n = prod ls) :
+    nestedCheckpointScanTree f init leaves length ls
+      = nestedCheckpointScanTree f init leaves length ls' := by
+  rw [nestedCheckpointScanTree_eq_scan f init leaves length ls hne hpos hx hlen,
+    nestedCheckpointScanTree_eq_scan f init leaves length ls' hne' hpos'
+      (fun a ha => (hx a ha).trans hp) (fun n hn => (hlen n hn).trans hp), hp]
+
+example : nestedCheckpointScanOut 2 (fun (c : Nat) (x : Nat) => (c + x, (c, x))) 1 [1, 2, 3, 4, 5, 6]
+    (some 6) [2, 3] = nestedCheckpointScanOut 2 (fun (c : Nat) (x : Nat) => (c + x, (c, x))) 1
+      [1, 2, 3, 4, 5, 6] (some 6) [3, 1, 2] :=
+  nestedCheckpointScanOut_factorisations_agree 2 _ 1 _ (some 6) [2, 3] [3, 1, 2] (by simp)
+    (fun _ => by decide) (by simp) (fun _ => by decide) rfl rfl (by simp)
+example : nestedCheckpointScanTreeOut 0 (fun (c : Nat) (_ : List Nat) => (c + 1, ())) 0 []
+    (some 0) [0, 2] = nestedCheckpointScanTreeOut 0 (fun (c : Nat) (_ : List Nat) => (c + 1, ())) 0 []
+      (some 0) [5, 0, 1] :=
+  nestedCheckpointScanTreeOut_factorisations_agree 0 _ 0 [] (some 0) [0, 2] [5, 0, 1] (by simp)
+    (fun h => absurd rfl h) (by simp) (fun h => absurd rfl h) rfl (by simp) (by simp [prod])
+example : nestedCheckpointScanOut 1 (fun (c : Nat) (x : Nat) => (c + x, c)) 0 [1, 2, 3] (some 4) [3]
+    = .error .valueError := nestedCheckpointScanOut_length_rejected 1 _ 0 _ 4 [3] (by decide)
+example : nestedCheckpointScanTreeOut 0 (fun (c : Nat) (r : List Nat) => (c + r.length, ())) 0
+    [[1, 2, 3, 4], [1, 2, 3]] none [2, 2] = .error .typeError := by
+  rw [nestedCheckpointScanTreeOut_leaf_rejected 0 _ 0 _ none [2, 2] ⟨[1, 2, 3], by simp, by decide⟩]
+  rfl
+
+/-! ### `reshape` compares TOTAL sizes: leaves whose trailing shape has size `0` (review F2, N1)
+
+`nestedCheckpointScan…` above test `xs.length ≠ prod nested_lengths`; the real `reshape` tests
+`xs.length * rowSize ≠ prod nested_lengths * rowSize` with `rowSize = prod x.shape[1:]`.  The two
+agree **iff the trailing shape has positive size** (`reshapeRejects_of_pos`, hypothesis
+`0 < rowSize`); an array of shape `(n, 0)` passes `reshape` for every `n` and is then scanned as
+`prod nested_lengths` empty rows (`nestedCheckpointScanSized_zero`).  The `…Sized` model carries
+`rowSize` and is the one compared with the real code on such leaves. -/
+
+theorem reshapeRejects_of_pos (rowSize n : Nat) (ls : List Nat) (h : 0 < rowSize) :
+    reshapeRejects rowSize n ls = (n != prod ls) := by
+  by_cases e : n = prod ls
+  · simp [reshapeRejects, e]
+  · have hne : n * rowSize ≠ prod ls * rowSize := fun hh => e (Nat.eq_of_mul_eq_mul_right h hh)
+    rw [reshapeRejects, bne_iff_ne.mpr hne, bne_iff_ne.mpr e]
+
+theorem reshapeRejects_zero (n : Nat) (ls : List Nat) : reshapeRejects 0 n ls = false := by
+  simp [reshapeRejects]
+
+/-- **the statements about `nestedCheckpointScanOut` (and `nestedCheckpointScan`) are statements
+ about the real call exactly for arrays whose trailing shape has positive size** -/
+theorem nestedCheckpointScanSized_pos (rowSize : Nat) (h : 0 < rowSize) (e : X) (nOut : Nat)
+    (f : C → X → C × Y) (init : C) (xs : List X) (length : Option Nat) (ls : List Nat) :
+    nestedCheckpointScanSized rowSize e nOut f init xs length ls
+      = nestedCheckpointScanOut nOut f init xs length ls := by
+  have h' : rowSize ≠ 0 := by omega
+  simp [nestedCheckpointScanSized, nestedCheckpointScanOut, reshapeRejects_of_pos _ _ _ h, reshaped, h']
+
+/-- an array whose trailing shape has size `0` behaves, whatever its leading length, as the array of
+ `prod nested_lengths` empty rows -/
+theorem nestedCheckpointScanSized_zero (e : X) (nOut : Nat) (f : C → X → C × Y) (init : C)
+    (xs : List X) (length : Option Nat) (ls : List Nat) :
+    nestedCheckpointScanSized 0 e nOut f init xs length ls
+      = nestedCheckpointScanOut nOut f init (List.replicate (prod ls) e) length ls := by
+  simp [nestedCheckpointScanSized, nestedCheckpointScanOut, reshapeRejects_zero, reshaped]
+
+/-- **exact characterisation of the accepted calls, `reshape` on total sizes**: the leading length
+ must be `prod nested_lengths` *when the trailing shape has positive size* (hypothesis `0 < rowSize`
+ inside the statement); a leaf of size `0` is accepted with every leading length -/
+theorem nestedCheckpointScanSized_ok_iff (rowSize : Nat) (e : X) (nOut : Nat) (f : C → X → C × Y)
+    (init : C) (xs : List X) (length : Option Nat) (ls : List Nat) :
+    (∃ r, nestedCheckpointScanSized rowSize e nOut f init xs length ls = .ok r)
+      ↔ (lengthMismatch length ls = false ∧ (0 < rowSize → xs.length = prod ls) ∧ ls ≠ []
+          ∧ (nOut ≠ 0 → ∀ l ∈ ls.dropLast, 0 < l)) := by
+  rcases Nat.eq_zero_or_pos rowSize with rfl | h
+  · rw [nestedCheckpointScanSized_zero, nestedCheckpointScanOut_ok_iff]
+    simp
+  · rw [nestedCheckpointScanSized_pos _ h, nestedCheckpointScanOut_ok_iff]
+    simp [h]
+
+/-- T14.4 with the real `reshape` test: the result is the flat scan over the reshaped rows -/
+theorem nestedCheckpointScanSized_eq_scan (rowSize : Nat) (e : X) (nOut : Nat) (f : C → X → C × Y)
+    (init : C) (xs : List X) (length : Option Nat) (ls : List Nat) (hne : ls ≠ [])
+    (hpos : nOut ≠ 0 → ∀ l ∈ ls.dropLast, 0 < l) (hx : 0 < rowSize → xs.length = prod ls)
+    (hlen : ∀ n, length = some n → n = prod ls) :
+    nestedCheckpointScanSized rowSize e nOut f init xs length ls
+      = .ok (scan f init (reshaped rowSize e xs ls)) := by
+  rcases Nat.eq_zero_or_pos rowSize with rfl | h
+  · rw [nestedCheckpointScanSized_zero,
+      nestedCheckpointScanOut_eq_scan nOut f init _ length ls hne hpos (by simp) hlen]
+    simp [reshaped]
+  · have h' : rowSize ≠ 0 := by omega
+    rw [nestedCheckpointScanSized_pos _ h,
+      nestedCheckpointScanOut_eq_scan nOut f init xs length ls hne hpos (hx h) hlen]
+    simp [reshaped, h']
+
+/-- the excluded point, as a theorem about the `…Sized` model: for a leaf of size `0` the leading
+ length does not matter (e.g. shape `(5, 0)` with `nested_lengths = [2, 3]` runs `6` iterations) -/
+theorem nestedCheckpointScanSized_zero_any_length (e : X) (nOut : Nat) (f : C → X → C × Y)
+    (init : C) (xs xs' : List X) (length : Option Nat) (ls : List Nat) :
+    nestedCheckpointScanSized 0 e nOut f init xs length ls
+      = nestedCheckpointScanSized 0 e nOut f init xs' length ls := by
+  rw [nestedCheckpointScanSized_zero, nestedCheckpointScanSized_zero]
+
+theorem length_reshaped (rowSize : Nat) (e : X) (xs : List X) (ls : List Nat)
+    (h : reshapeRejects rowSize xs.length ls = false) :
+    (reshaped rowSize e xs ls).length = prod ls := by
+  rcases Nat.eq_zero_or_pos rowSize with rfl | hp
+  · simp [reshaped]
+  · have h' : rowSize ≠ 0 := by omega
+    rw [reshapeRejects_of_pos _ _ _ hp] at h
+    simpa [reshaped, h'] using h
+
+/-- pytree form: when `reshape` accepts every leaf, the call is the call on the reshaped leaves -/
+theorem nestedCheckpointScanTreeSized_eq (e : X) (nOut : Nat) (f : C → List X → C × Y) (init : C)
+    (leaves : List (Nat × List X)) (length : Option Nat) (ls : List Nat)
+    (h : (leaves.any fun a => reshapeRejects a.1 a.2.length ls) = false) :
+    nestedCheckpointScanTreeSized e nOut f init leaves length ls
+      = nestedCheckpointScanTreeOut nOut f init (leaves.map fun a => reshaped a.1 e a.2 ls)
+          length ls := by
+  have hany : ((leaves.map fun a => reshaped a.1 e a.2 ls).any fun a => a.length != prod ls)
+      = false := by
+    rw [List.any_eq_false]
+    intro a ha
+    obtain ⟨b, hb, rfl⟩ := List.mem_map.mp ha
+    have := (List.any_eq_false.mp h) b hb
+    simp [length_reshaped b.1 e b.2 ls (by simpa using this)]
+  simp [nestedCheckpointScanTreeSized, nestedCheckpointScanTreeOut, h, hany]
+
+/-- pytree form, every leaf with a trailing shape of positive size: the `…TreeOut` model -/
+theorem nestedCheckpointScanTreeSized_pos (e : X) (nOut : Nat) (f : C → List X → C × Y) (init : C)
+    (leaves : List (Nat × List X)) (length : Option Nat) (ls : List Nat)
+    (hp : ∀ a ∈ leaves, 0 < a.1) :
+    nestedCheckpointScanTreeSized e nOut f init leaves length ls
+      = nestedCheckpointScanTreeOut nOut f init (leaves.map (·.2)) length ls := by
+  have h1 : (leaves.any fun a => reshapeRejects a.1 a.2.length ls)
+      = ((leaves.map (·.2)).any fun a => a.length != prod ls) := by
+    rw [List.any_map, Bool.eq_iff_iff]
+    simp only [List.any_eq_true, Function.comp]
+    constructor <;> rintro ⟨a, ha, h⟩ <;> refine ⟨a, ha, ?_⟩ <;>
+      simpa [reshapeRejects_of_pos _ _ _ (hp a ha)] using h
+  have h2 : (leaves.map fun a => reshaped a.1 e a.2 ls) = leaves.map (·.2) := by
+    apply List.map_congr_left
+    intro a ha
+    have : a.1 ≠ 0 := by have := hp a ha; omega
+    simp [reshaped, this]
+  rw [nestedCheckpointScanTreeSized, nestedCheckpointScanTreeOut, h1, h2]
+
+/-- exact characterisation of the accepted calls, pytree form, `reshape` on total sizes: only the
+ leaves whose trailing shape has positive size must have `prod nested_lengths` rows -/
+theorem nestedCheckpointScanTreeSized_ok_iff (e : X) (nOut : Nat) (f : C → List X → C × Y)
+    (init : C) (leaves : List (Nat × List X)) (length : Option Nat) (ls : List Nat) :
+    (∃ r, nestedCheckpointScanTreeSized e nOut f init leaves length ls = .ok r)
+      ↔ (lengthMismatch length ls = false ∧ (∀ a ∈ leaves, 0 < a.1 → a.2.length = prod ls)
+          ∧ ls ≠ [] ∧ (nOut ≠ 0 → ∀ l ∈ ls.dropLast, 0 < l)) := by
+  have hiff : (leaves.any fun a => reshapeRejects a.1 a.2.length ls) = false
+      ↔ ∀ a ∈ leaves, 0 < a.1 → a.2.length = prod ls := by
+    rw [List.any_eq_false]
+    constructor
+    · intro h a ha hp
+      have := h a ha
+      rw [reshapeRejects_of_pos _ _ _ hp] at this
+      simpa using this
+    · intro h a ha
+      rcases Nat.eq_zero_or_pos a.1 with h0 | hp
+      · rw [h0, reshapeRejects_zero]; simp
+      · rw [reshapeRejects_of_pos _ _ _ hp]; simp [h a ha hp]
+  by_cases hrej : (leaves.any fun a => reshapeRejects a.1 a.2.length ls) = false
+  · rw [nestedCheckpointScanTreeSized_eq e nOut f init leaves length ls hrej,
+      nestedCheckpointScanTreeOut_ok_iff]
+    have hall : ∀ a ∈ leaves.map (fun a => reshaped a.1 e a.2 ls), a.length = prod ls := by
+      intro a ha
+      obtain ⟨b, hb, rfl⟩ := List.mem_map.mp ha
+      have hb' := (List.any_eq_false.mp hrej) b hb
+      exact length_reshaped b.1 e b.2 ls (by simpa using hb')
+    constructor
+    · rintro ⟨hm, _, hne, hpos⟩
+      exact ⟨hm, hiff.mp hrej, hne, hpos⟩
+    · rintro ⟨hm, _, hne, hpos⟩
+      exact ⟨hm, hall, hne, hpos⟩
+  · constructor
+    · rintro ⟨r, hr⟩
+      simp only [Bool.not_eq_false] at hrej
+      by_cases hm : lengthMismatch length ls = true
+      · simp [nestedCheckpointScanTreeSized, hm] at hr
+      · simp [nestedCheckpointScanTreeSized, hm, hrej] at hr
+    · rintro ⟨_, hx, _, _⟩
+      exact absurd (hiff.mpr hx) hrej
+
+/-- non-vacuity at the excluded point: shape `(5, 0)` (five empty rows) with `nested_lengths = [2, 3]`
+ is accepted and runs six iterations, as the real code does; shape `(5, 1)` is rejected; a pytree
+ with a well-sized leaf and a leaf of shape `(5, 0)` is accepted -/
+example : nestedCheckpointScanSized 0 ([] : List Nat) 1 (fun (c : Nat) (_ : List Nat) => (c + 1, c)) 0
+    [[], [], [], [], []] none [2, 3] = .ok (6, [0, 1, 2, 3, 4, 5]) := by decide
+example : nestedCheckpointScanSized 1 ([] : List Nat) 1 (fun (c : Nat) (_ : List Nat) => (c + 1, c)) 0
+    [[7], [7], [7], [7], [7]] none [2, 3] = .error .typeError := by decide
+example : nestedCheckpointScanSized 0 ([] : List Nat) 1 (fun (c : Nat) (_ : List Nat) => (c + 1, c)) 0
+    [[], [], [], [], []] none [] = .error .indexError := by decide
+example : nestedCheckpointScanTreeSized ([] : List Nat) 1
+    (fun (c : Nat) (r : List (List Nat)) => (c + r.flatten.sum, c)) 0
+    [(1, [[0], [1], [2], [3], [4], [5]]), (0, [[], [], [], [], []])] none [2, 3]
+    = .ok (15, [0, 0, 1, 3, 6, 10]) := by decide
+example : ∃ r, nestedCheckpointScanSized 0 ([] : List Nat) 1
+    (fun (c : Nat) (_ : List Nat) => (c + 1, c)) 0 [[], [], [], [], []] none [2, 3] = .ok r :=
+  (nestedCheckpointScanSized_ok_iff 0 _ 1 _ 0 _ none [2, 3]).mpr
+    ⟨rfl, fun h => absurd h (by decide), by simp, fun _ => by decide⟩
+example : nestedCheckpointScanSized 2 ([] : List Nat) 1
+    (fun (c : Nat) (r : List Nat) => (c + r.sum, c)) 0 [[1, 2], [3, 4], [5, 6], [7, 8]] (some 4) [2, 2]
+    = nestedCheckpointScanOut 1 (fun (c : Nat) (r : List Nat) => (c + r.sum, c)) 0
+        [[1, 2], [3, 4], [5, 6], [7, 8]] (some 4) [2, 2] :=
+  nestedCheckpointScanSized_pos 2 (by decide) _ 1 _ 0 _ (some 4) [2, 2]
+
 end nested
 
 /-! ## T14.5 `accumulate_repeated`, digital filter initialisation -/
@@ -966,5 +1273,21 @@ theorem dfi_steady_lanczos {V : Type} [AddCommGroup V] [Module ℝ V]
   have h2 : ((1 : ℝ) + 1) * dt ≠ 0 := mul_ne_zero (by norm_num) hdt
   simp only [digitalFilterInitialization, dfiSteps, h2, decide_false, Bool.false_eq_true, if_false]
   rw [dfi_steady solver eq filters _ dt s hf hb (lanczos_total_pos _ T c hT hc).2]
+
+/-- non-vacuity of `dfi_steady_lanczos` (review F2, N4): its hypotheses `dt ≠ 0`, `0 < T ≤ c`, and
+ a state fixed by the filtered forward / reversed backward-forward-Euler steps, on a relaxation
+ equation with a non-trivial filter, `T = c = 6`, `dt = 1/2` (`N = 6` steps each way) -/
+example : digitalFilterInitialization (fun x : ℝ => decide (x = 0)) (fun y : ℝ => ⌊y⌋)
+    (fun n : Int => (n : ℝ)) (fun a b => decide (a < b)) sincR bfe
+    (⟨fun x => x - 3, fun x => 2 * (x - 3), fun x η => (x - 3) / (1 - 2 * η) + 3⟩ : ImEx ℝ ℝ)
+    [fun u v => v + (v - u) / 4] 6 6 (1 / 2) 3 = .ok 3 :=
+  dfi_steady_lanczos bfe _ _ 6 6 (1 / 2) 3 (by norm_num) (by norm_num) (le_refl _)
+    (by simp [stepWithFilters, applyFilters, bfe]) (by simp [stepWithFilters, applyFilters, bfe, timeReversed])
+
+/-- non-vacuity of `dfiWeights_normalised`: its hypothesis `dfiTotal w ≠ 0` on `w = [1/2, 1/4]`
+ (total `5/2`) -/
+example : 1 / dfiTotal ([1 / 2, 1 / 4] : List ℚ)
+    + (1 + 1) * weightSum (([1 / 2, 1 / 4] : List ℚ).map (· / dfiTotal [1 / 2, 1 / 4])) = 1 :=
+  dfiWeights_normalised _ (by norm_num [dfiTotal, weightSum])
 
 end Dino.C14
